@@ -10,8 +10,8 @@ META = dict(
     engine="flo", level="exploration",
     technique="completely enumerated addressing family x every single renaming, built with the real Builder; metamorphic "
               "comparison of resolved-reference maps plus a written-form 'resolves through' name-set oracle (no sampling)",
-    text="Family: 29 written reference forms (absolute, root-relative, `of root|me`, `of framer [me|main|name]`, `of frame "
-         "[me|main|name] [of framer ..]`, `of actor [me|name] [of frame ..]`, inline framer./frame./actor. forms, dot-paths with a "
+    text="Family: 31 written reference forms (absolute, root-relative, `of root|me`, `of framer [me|main|name]`, `of frame "
+         "[me|main|name] [of framer ..]` (including `of frame main of framer me|name`), `of actor [me|name] [of frame ..]`, inline framer./frame./actor. forms, dot-paths with a "
          "relation) x 17 verb slots (put, copy src/dst, inc dst/src, set dst/src, go-if state/goal/boolean/updated, bid at, do "
          "via/per/for/from with a named doer) x 4 placements (first frame, nested frame, plain auxiliary, named clone) x via-inode "
          "configurations on framer / frame / nested frame / aux / clone / moot (absolute, relative, me-relative; 3 quick, 7 "
@@ -95,6 +95,8 @@ FORMS = [
     ("of-frame-name-framer", "x of frame hrc of framer wfb",  ["wfb", "hrc"],    ""),
     ("of-frame-me-framer",   "x of frame me of framer wfb",   ["wfb", "R"],      ""),
     ("of-frame-main",  "x of frame main",                     ["P", "M"],        "m"),
+    ("of-frame-main-framer-me",   "x of frame main of framer me",  ["F", "M"],   "m"),
+    ("of-frame-main-framer-name", "x of frame main of framer wfb", ["wfb", "M"], "m"),
     ("of-actor",       "x of actor",                          ["F", "R", "A"],   ""),
     ("of-actor-me",    "x of actor me",                       ["F", "R", "A"],   ""),
     ("of-actor-name",  "x of actor dxa",                      ["F", "R", "dxa"], ""),
